@@ -263,13 +263,13 @@ func (e *Engine) sortOf(t types.Type) string {
 		case u.Info()&(types.IsFloat|types.IsComplex) != 0:
 			return "Flt"
 		case u.Kind() == types.UnsafePointer:
-			return "Int"
+			return e.isort()
 		case u.Kind() == types.UntypedNil:
-			return "Int"
+			return e.isort()
 		}
-		return "Int"
+		return e.isort()
 	case *types.Pointer, *types.Map, *types.Chan, *types.Signature:
-		return "Int"
+		return e.isort() // references are of the index sort (Int, or 64-bit vectors in bv mode)
 	case *types.Slice:
 		return "Slc"
 	case *types.Array:
@@ -643,6 +643,22 @@ func (e *Engine) merge(states []*State) *State {
 			if !has {
 				if iv, has2 := e.inputs[k]; has2 {
 					v = iv
+				} else if sk, isSynth := k.(*synth); isSynth && strings.HasPrefix(sk.name, "callres:") {
+					// ghost record of a tracked call that did not happen on this path: the ":called" flag is false there;
+					// the recorded values are unspecified on such a path (the value of a sibling path is reused, which keeps
+					// the terms of the path that did call intact) - contracts guard them with called("f") or a path condition
+					var sample Value
+					for _, o := range live {
+						if ov, ok2 := o.vars[k]; ok2 {
+							sample = ov
+							break
+						}
+					}
+					if strings.HasSuffix(sk.name, ":called") {
+						v = Value{"false", sample.Typ}
+					} else {
+						v = sample
+					}
 				} else {
 					ok = false
 					break
